@@ -351,7 +351,7 @@ class Mesh:
             cumsum += eta_sqr[i]
             if cumsum >= eta_tot_sqr * theta**2:
                 break
-        assert np.sqrt(cumsum) >= theta * np.sqrt(eta_tot_sqr)
+        assert cumsum >= eta_tot_sqr * theta**2
         print('Marked {} / {} elements'.format(len(marked), N))
 
         # First refine in time.
@@ -386,7 +386,7 @@ class Mesh:
             cumsum += val
             if cumsum >= eta_tot_sqr * theta**2:
                 break
-        assert np.sqrt(cumsum) >= theta * np.sqrt(eta_tot_sqr)
+        assert cumsum >= eta_tot_sqr * theta**2
         print('Marked {} elements for time refinemenent.'.format(len(
             marked[0])))
         print('Marked {} elements for space refinemenent.'.format(
